@@ -15,7 +15,7 @@ RULE = ("generated version histories per unit (1-12 versions; repeated versions,
         "percent is not compared and is counted); the statement (range, convexity, before-first, domain, correction, all-missing on irregular "
         "histories) is re-evaluated on the output. distinct = (number of versions, kind, dtype, error type); non-trivial = >= 3 versions")
 
-KINDS = ["regular", "regular", "regular", "rescaled", "repeat", "zero_first", "downward", "bad_batch", "zero_final", "single"]
+KINDS = ["regular", "regular", "regular", "rescaled", "repeat", "zero_first", "downward", "bad_batch", "zero_final", "single", "reattributed"]
 
 
 def gen_history(rng, kind):
@@ -44,6 +44,19 @@ def gen_history(rng, kind):
         rows[i][2] = max(rows[i][2], rows[i - 1][2])
         for j in range(i + 1, n):
             rows[j][0] = max(rows[j][0], rows[i][0])
+            rows[j][2] = max(rows[j][2], rows[j - 1][2], rows[j][0] + rows[j][1])
+    if kind == "reattributed" and n >= 2:
+        # votes moved between the two candidates with an unchanged two-party total: a batch of zero votes with a non-zero margin
+        i = rng.randrange(1, n)
+        shift = rng.randint(1, 40)
+        rows[i][0] = rows[i - 1][0] + shift
+        rows[i][1] = max(0, rows[i - 1][1] - shift)
+        if rows[i][1] == 0 and rows[i - 1][1] < shift:
+            rows[i][0] = rows[i - 1][0] + rows[i - 1][1]
+        rows[i][2] = max(rows[i][2], rows[i - 1][2])
+        for j in range(i + 1, n):
+            rows[j][0] = max(rows[j][0], rows[i][0])
+            rows[j][1] = max(rows[j][1], rows[i][1])
             rows[j][2] = max(rows[j][2], rows[j - 1][2], rows[j][0] + rows[j][1])
     if kind == "zero_final":
         rows = [[0, 0, 0] for _ in rows]
